@@ -423,7 +423,8 @@ PROPS = {
                               "reconstructs -- reordered, TTL decremented, owner and RDATA names in another case, as wildcard expansions with "
                               "upper case in the replaced and in the kept part -- and does not verify changed data; sign_sorted_rrset_in with one "
                               "scratch buffer for a sequence of RRsets, a buffer that is not empty on entry and a key back end that fails "
-                              "once in between: every RRSIG returned verifies; on the real crate"},
+                              "once in between: every RRSIG returned verifies; DS digests (SHA-1, SHA-256, SHA-384) of the generated keys under "
+                              "mixed-case owners equal an independent ring computation over lower-cased name | DNSKEY RDATA; on the real crate"},
         "kani": [
             {"group": "g0", "name": "c12_key_tag_matches_rfc4034_bounded", "kind": "bounded", "tier": "quick",
              "bound": "public keys of 0..=12 octets, all flags/protocol/algorithm values except RSAMD5, all key contents",
